@@ -69,6 +69,9 @@ ItemLists(sd) == LET vs == DopValues(sd) IN
 DopValues(d) ==
     IF "alpha" \in DOMAIN d THEN d.alpha ELSE      \* a data object may bring its own value alphabet
     CASE d.k = "simple" -> DctValues(d.dct)
+      \* one dictionary per trouble code: the common parameters and those of that code
+      [] d.k = "envdesc" -> {DictV(a \o b) : a \in (IF d.hasall THEN Assignments(d.all, 1) ELSE {<<>>}),
+                                            b \in UNION {Assignments(d.per[i].ps, 1) : i \in 1..Len(d.per)}}
       [] d.k = "dtc" -> {IntV(d.codes[i]) : i \in 1..Len(d.codes)} \cup
                         (IF Wrong THEN {IntV(d.codes[1] + 1), IntV(-1), Bad("float"), Bad("none"), Bad("list")} ELSE {})
       [] d.k = "struct" -> {DictV(a) : a \in Assignments(d.ps, 1)}
@@ -88,6 +91,7 @@ CanonDop(d, v) ==
                             ELSE IF d.dct.k = "paramlen" /\ d.dct.base \in {"uint", "int"} THEN CanonAtomic(d.dct, v, 32)
                             ELSE v)
       [] d.k = "dtc" -> v
+      [] d.k = "envdesc" -> Missing          \* which parameters come back depends on the trouble code: compared by the harness
       [] d.k = "struct" -> CanonDict(d.ps, v)
       [] d.k = "mux" -> LET cs == {d.cases[i] : i \in 1..Len(d.cases)} \cup (IF d.hasdflt THEN {d.dflt} ELSE {})
                             c == CHOOSE x \in cs : x.n = v.a IN
@@ -98,7 +102,15 @@ CanonDict(ps, d) ==
     DictV([i \in 1..Len(ps) |->
         LET p == ps[i]
             v == DictGet(d, p.n) IN
-        <<p.n, CASE p.k \in {"VALUE", "SYSTEM"} -> CanonDop(p.dop, IF IsMissing(v) THEN p.dv ELSE v)
+        <<p.n, CASE p.k \in {"VALUE", "SYSTEM"} /\ p.dop.k = "envdesc" ->
+                      \* the common parameters, then those of the trouble code of the referenced parameter
+                      LET refs == {j \in 1..Len(ps) : ps[j].n = p.dop.ref}
+                          code == IF refs = {} THEN Missing ELSE Effective(ps[CHOOSE j \in refs : TRUE], DictGet(d, p.dop.ref))
+                          hit == IF code.t = "int" THEN {j \in 1..Len(p.dop.per) : code.v \in p.dop.per[j].codes} ELSE {}
+                          lst == (IF p.dop.hasall THEN p.dop.all ELSE <<>>) \o
+                                 (IF hit = {} THEN <<>> ELSE p.dop.per[CHOOSE j \in hit : \A j2 \in hit : j <= j2].ps)
+                      IN IF IsMissing(v) \/ v.t # "dict" THEN Missing ELSE CanonDict(lst, v)
+                 [] p.k \in {"VALUE", "SYSTEM"} -> CanonDop(p.dop, IF IsMissing(v) THEN p.dv ELSE v)
                  [] p.k = "TABLE-KEY" ->    \* the row named explicitly, or by the TABLE-STRUCT that uses the key
                       LET users == {j \in 1..Len(ps) : ps[j].k = "TABLE-STRUCT" /\ ps[j].sys = p.n /\ ~IsMissing(DictGet(d, ps[j].n))} IN
                       IF ~IsMissing(v) THEN v
